@@ -8,7 +8,7 @@ whenConnected Deferred fired with protocol-of-connection c / failure class, stop
 (c) the calls user callbacks made re-entrantly and their outcomes.
 
 op vocabulary (lists, JSON-able):
-  ["start"] ["stop", then] ["when", k, then]     k = 0 (no limit) or failure limit; then = what the Deferred's callback
+  ["start"] ["stop", then] ["when", k, then]     k = -1 (failAfterFailures=None) or the failure limit 0, 1, 2, ..; then = what the Deferred's callback
                                                  does when it fires: "none" | "start" | "stop" | "when"
   ["succeed"] ["fail"]                           the pending endpoint attempt succeeds / fails
   ["prepok", c] ["prepfail", c]                  the pending prepareConnection Deferred of connection c fires
@@ -164,7 +164,7 @@ class Env:
                 d.addBoth(self._fired_s, sid, then)
                 return "ok", sid
             if call == "when":
-                d = self.svc.whenConnected(failAfterFailures=(k or None))
+                d = self.svc.whenConnected(failAfterFailures=(None if k < 0 else k))
                 self.nW += 1
                 wid = self.nW
                 self.wthen[wid] = (k, then)
@@ -177,7 +177,7 @@ class Env:
     def _then(self, by, i, then):
         if then == "none":
             return
-        res, newid = self._call(then, 0, "none")
+        res, newid = self._call(then, -1, "none")
         self.nested.append({"by": by, "id": i, "call": then, "res": res, "newid": newid})
 
     def _fired_w_ok(self, proto, wid, then):
